@@ -172,6 +172,8 @@ def run(res, proof):
                 '1e-150..1e150 (every intermediate product stays a normal double) incl. 0, integral and huge; reactions of arity 1-3 x combinations of accepted concentration and '
                 'time units; non-trivial = two known units of one family with a non-zero value; distinct by (op, value, units)' % len(allu))
     impl = [impl_op(w, utils, op) for op in ops]
+    from . import cu as _cu
+    _cu.rerun_sample(res, 'units', ops, impl, lambda op: impl_op(w, utils, op), rng)
     lines = [line_of(op) for op in ops]
     try:
         model = core.run_driver(lines)
